@@ -64,6 +64,15 @@ def gen_cases(c, rng, shard):
     if c.xfer in ("alloc", "read", "write", "allocarg"):
         for a in harness.huge_cases(c, rng):
             yield "huge", a
+    bname = next((k for k, spec in c.args.items() if spec[0] == "blockdata"), None)
+    if bname:
+        # WRITE SAME prepared without its block (attached later with cmd.dataout = ...): the flags in the CDB are the caller's
+        for i in range(6 if shard["small"] else 24):
+            a = harness.random_args(c, rng)
+            a[bname] = None
+            if "ndob" in a:
+                a["ndob"] = i % 2
+            yield "block_attached_later", a
     wname = next((k for k, spec in c.args.items() if spec[0] == "wdata"), None)
     if wname:
         # TRANSFER LENGTH is the caller's, whatever the size of the buffer he hands over: zero blocks with a (pool) buffer of some
@@ -92,6 +101,9 @@ def observe(ctx, c, setname, path, a, cdb, expect_op):
 
 TICK = [0]
 CAPTURED = []  # keyword values of the most recent SCSICommand.build_cdb call (hook installed by run())
+
+
+HELD_CDBS = []
 
 
 def run_one(ctx, c, setname, kind, a, do_facade, transports):
@@ -132,6 +144,24 @@ def run_one(ctx, c, setname, kind, a, do_facade, transports):
         full["_outlen"] = len(cmd.dataout)
     observe(ctx, c, setname, "ctor", full, cmd.cdb, c.op)
     ctx.count("cdbs_checked")
+    # CDBs of commands that no longer exist (a trace list, a transport queue holds the bytes; the command object was dropped):
+    # they keep the values they were built with while further commands are built
+    for held, was, who in HELD_CDBS:
+        if bytes(held) != was:
+            ctx.fail("C01:%s.held_cdb_changed_after_its_command_was_dropped" % who, "the CDB of a dropped %s command changed while other commands were built: %s, was %s" % (who, bytes(held).hex(), was.hex()),
+                     {"cmd": who, "then_built": c.name})
+            del HELD_CDBS[:]
+            break
+    ctx.count("held_cdbs_rechecked", len(HELD_CDBS))
+    if kind != "huge*" and TICK[0] % 3 == 0:
+        try:
+            ghost = harness.construct(c, setname, DO.fresh(a) if c.custom else a)
+            HELD_CDBS.append((ghost.cdb, bytes(ghost.cdb), c.name))
+            del ghost
+            if len(HELD_CDBS) > 12:
+                HELD_CDBS.pop(0)
+        except Exception:  # noqa: BLE001
+            pass
     # other public ways to the same bytes: decode + encode again (how a caller patches one field of an existing command), and the
     # command after its debug print helper ran
     if kind != "huge*":
